@@ -62,6 +62,11 @@ var Pool = []Recipe{
 	r("{exit}", false, false, psref.TP(tx("exit"))),
 	r("3 dict", true, false, ti(3), tx("dict")),
 	r("<</a 1 /b (s)>>", true, false, tx("<<"), tl("a"), ti(1), tl("b"), psref.TS([]byte("s")), tx(">>")),
+	// dictionaries of equal length whose keys are decimal names: distinct
+	// dictionaries must stay distinct whatever their keys are
+	r("<</0 7>>", true, false, tx("<<"), tl("0"), ti(7), tx(">>")),
+	r("<</a 7>>", true, false, tx("<<"), tl("a"), ti(7), tx(">>")),
+	r("<</0 1 /1 (s)>>", false, false, tx("<<"), tl("0"), ti(1), tl("1"), psref.TS([]byte("s")), tx(">>")),
 	r("userdict", false, false, tx("userdict")),
 	r("mark", true, false, tx("mark")),
 	r("/add load", false, false, tl("add"), tx("load")),
